@@ -116,6 +116,7 @@ def build(chk):
             for endpoints in (False, True):
                 one_axis(chk, M, N, direction, endpoints)
     two_axes(chk, 3, 3)
+    two_poly_axes(chk, 3, 3)
     chk.assume_note("scipy.special.eval_chebyt/eval_chebyu are the Chebyshev polynomials T_n, U_n (sympy closed forms); numpy.linalg.inv is the exact matrix inverse")
 
 
@@ -222,6 +223,41 @@ def one_axis(chk, M, N, direction, endpoints):
             spec += sp.pi / D * h * sp.sqrt(1 - x**2) * wts[k] * P(x)
         chk.vc(f"{tag}.integrate.gcl-weights", p4.pc, Eq(simp(r), simp(spec)), func=f"{fnq}.integrate")
         chk.canary(f"{tag}.integrate.gcl-weights", p4.pc, Eq(simp(r), simp(spec) + 1), func=f"{fnq}.integrate")
+
+
+def two_poly_axes(chk, M, N):
+    """rank 2 with TWO polynomial axes (z, pz) and every combination of endpoint flags and bases: the value at a generic point (x*, y*) is
+    that of the bivariate polynomial the grid values were taken from - axes act independently, nothing carries over from one axis to the
+    next (a sum of two product polynomials, so axis mixing shows)."""
+    fnq = "polynomial.Polynomial"
+    ys = real("ystar")
+    from wgvc.interp import enumerate_paths, ClassRef
+    for epz, epp in itertools.product((False, True), repeat=2):
+        A, C_ = (space_poly("z", epz, axis_size("z", epz, M, N), t) for t in ("a", "c"))
+        B, D_ = (space_poly("pz", epp, axis_size("pz", epp, M, N), t) for t in ("b", "d"))
+
+        def P2(u, v, A=A, B=B, C_=C_, D_=D_):
+            return A(u) * B(v) + C_(u) * D_(v)
+        for bases in (("Chebyshev", "Chebyshev"), ("Cardinal", "Chebyshev"), ("Chebyshev", "Cardinal")):
+            tag = f"M{M}N{N}.rank2-poly.z-{'with' if epz else 'no'}.pz-{'with' if epp else 'no'}.{bases[0]}-{bases[1]}"
+
+            def body(it, epz=epz, epp=epp, bases=bases, P2=P2):
+                grid = make_grid(it, M, N)
+                nz = as_array(it.call_method(grid, "getCompactCoordinates", [epz, "z"], {})).reshape(-1)
+                npz = as_array(it.call_method(grid, "getCompactCoordinates", [epp, "pz"], {})).reshape(-1)
+                c = as_array([[P2(u, v) for v in npz] for u in nz])
+                poly = it.instantiate(ClassRef("polynomial", "Polynomial"), [c, grid, ("Cardinal", "Cardinal"), ("z", "pz"), (epz, epp)], {})
+                it.call_method(poly, "changeBasis", [bases], {})
+                return it.call_method(poly, "evaluate", [as_array([[y], [ys]])], {}), {}
+            paths = [p for p in enumerate_paths(body, externals=EXT) if p.outcome == "return"]
+            chk.path_count += len(paths)
+            if len(paths) != 1:
+                chk.undecided.append(f"{tag}: {len(paths)} returning paths")
+                continue
+            val = paths[0].value
+            val = as_array(val).reshape(-1)[0] if isinstance(val, np.ndarray) else val
+            chk.vc(f"{tag}.evaluate", paths[0].pc, Eq(simp(val), simp(P2(y, ys))), func=f"{fnq}.evaluate")
+    chk.bounded.append({"what": "rank-2 evaluate with two polynomial axes", "bound": f"axes (z, pz), M={M}, N={N}, all endpoint combinations, three basis pairs", "held": True})
 
 
 def two_axes(chk, M, N):
